@@ -301,7 +301,7 @@ func genPermCase(t *rapid.T) PermCase {
 		Method: pick(t, []string{"m", "n", "s", "other", ""}, "method"),
 		Stored: rapid.Bool().Draw(t, "stored"),
 	}
-	if e := pick(t, []string{"", "", "", "", "", "", "methods-null", "methods-missing", "contract-null", "contract-missing", "empty"}, "json_edit"); e != "" && !c.Stored && len(c.Perms) > 0 {
+	if e := pick(t, []string{"", "", "", "", "", "", "methods-null", "methods-missing", "contract-null", "contract-missing", "empty", "methods-null-second-spelling"}, "json_edit"); e != "" && !c.Stored && len(c.Perms) > 0 {
 		c.JSONEdit = e
 	}
 	for i := range c.Perms {
@@ -519,12 +519,17 @@ func checkHandWrittenPermission(c PermCase, raw []byte, hash util.Uint160, cm *m
 		delete(list[0], "contract")
 	case "empty":
 		list[0] = map[string]json.RawMessage{}
+	case "methods-null-second-spelling":
 	default:
 		return nil
 	}
 	edited, err := json.Marshal(list[:1])
 	if err != nil {
 		return err
+	}
+	if c.JSONEdit == "methods-null-second-spelling" {
+		// the member a second time, spelled "Methods" (Go's decoder matches member names case-insensitively), null
+		edited = append(edited[:len(edited)-2], []byte(`,"Methods":null}]`)...)
 	}
 	mm := manifest.NewManifest("caller")
 	mm.ABI.Methods = []manifest.Method{{Name: "run", ReturnType: smartcontract.VoidType}}
@@ -554,6 +559,19 @@ func checkHandWrittenPermission(c PermCase, raw []byte, hash util.Uint160, cm *m
 	}
 	if err := back.IsValid(util.Uint160{1, 2, 3}, true); err != nil {
 		o.Label("hand-written-permission-refused")
+		o.NonTrivial()
+		return nil
+	}
+	if c.JSONEdit == "methods-null-second-spelling" {
+		// the properly spelled member is there: a decoder may ignore the second spelling (the reference does) or refuse
+		// the manifest, but it must not allow more than the first permission says
+		for _, m := range []string{c.Method, "m", "n", "anything"} {
+			if got, want := back.CanCall(hash, cm, m), specPermAllows(c.Perms[0], calleeNames[c.Callee], c.Groups, m); got && !want {
+				return fmt.Errorf("manifest with the hand-written permission %s is accepted and CanCall(%s, groups %v, %q) = true although the permission %s does not allow it: the second, null-valued spelling of the member turned the method list into a wildcard",
+					edited, calleeNames[c.Callee], c.Groups, m, c.Perms[0])
+			}
+		}
+		o.Label("hand-written-permission-second-spelling-harmless")
 		o.NonTrivial()
 		return nil
 	}
